@@ -1,5 +1,7 @@
 """Runs the real generator once (or twice) under a given directory-enumeration order; prints {path: sha256} as JSON.
-usage: gen_driver.py <src> <xml_root> <out_dir> <order.json> [repeat]
+usage: gen_driver.py <src> <xml_root> <out_dir> <order.json> [repeat | reuse | decoy]
+  reuse: ONE generator instance first runs while a file of the tree is ill-formed (and fails), then again after the file is repaired
+  decoy: another instance has, in the same process, just generated a tree with the same type names but different enum ordinals
 order.json: list of spec directories ("" for the root) in the order they are to be discovered.  Standalone."""
 import contextlib
 import hashlib
@@ -12,7 +14,8 @@ from pathlib import Path
 
 def main():
     src, xml_root, out_dir, order_file = sys.argv[1:5]
-    repeat = int(sys.argv[5]) if len(sys.argv) > 5 else 1
+    mode = sys.argv[5] if len(sys.argv) > 5 else "1"
+    repeat = int(mode) if mode.isdigit() else 1
     order = json.load(open(order_file))
     sys.dont_write_bytecode = True
     sys.path.insert(0, src)
@@ -38,11 +41,46 @@ def main():
         def __getattr__(self, name):
             return walk if name == "walk" else getattr(os, name)
     cg.os = FakeOs()
-    res = {"exc": "", "files": {}}
+    res = {"exc": "", "files": {}, "warmup_exc": ""}
     try:
-        for _ in range(repeat):
+        if mode == "reuse":
+            import shutil
+            inst = cg.ProtocolCodeGenerator(Path(xml_root))
+            victim = sorted(Path(xml_root).rglob("protocol.xml"))[0]
+            good = victim.read_text()
+            victim.write_text(good.replace("</protocol>", '<struct name="ZzPoison"><field name="x" type="NoSuchType"/></struct>\n</protocol>'))
+            try:
+                with contextlib.redirect_stdout(io.StringIO()):
+                    inst.generate(Path(out_dir))
+            except Exception as e:
+                res["warmup_exc"] = type(e).__name__
+            finally:
+                victim.write_text(good)
+            shutil.rmtree(out_dir, ignore_errors=True)
+            with contextlib.redirect_stdout(io.StringIO()):
+                inst.generate(Path(out_dir))
+        elif mode == "decoy":
+            import re
+            import shutil
+            import tempfile
+            droot = Path(tempfile.mkdtemp(prefix="decoy-", dir=str(Path(out_dir).parent)))
+            try:
+                shutil.copytree(xml_root, droot / "xml")
+                for f in (droot / "xml").rglob("protocol.xml"):
+                    f.write_text(re.sub(r"(<value name=\"[^\"]*\">)(\d+)(</value>)", lambda m: m.group(1) + str(int(m.group(2)) + 1) + m.group(3), f.read_text()))
+                try:
+                    with contextlib.redirect_stdout(io.StringIO()):
+                        cg.ProtocolCodeGenerator(droot / "xml").generate(droot / "out")
+                except Exception as e:
+                    res["warmup_exc"] = type(e).__name__
+            finally:
+                shutil.rmtree(droot, ignore_errors=True)
             with contextlib.redirect_stdout(io.StringIO()):
                 cg.ProtocolCodeGenerator(Path(xml_root)).generate(Path(out_dir))
+        else:
+            for _ in range(repeat):
+                with contextlib.redirect_stdout(io.StringIO()):
+                    cg.ProtocolCodeGenerator(Path(xml_root)).generate(Path(out_dir))
     except Exception as e:
         res["exc"] = f"{type(e).__name__}: {e}"
     for p in sorted(Path(out_dir).rglob("*")):
